@@ -25,7 +25,7 @@ def run(facts, tier):
         ("duplicate operands", lambda fa: generic_lints.duplicate_conjuncts(fa, ('cpc/',)), 2, "no logical chain tests the same operand twice (copy-paste of the wrong peer)"),
         ("forwarding peers", lambda fa: generic_lints.forwarding_peers(fa, ('cpc/',)), 7, "one-statement typed overloads forward to an overload of their own name, never to the head of a sibling family (wrong peer)"),
         ("overload twins", lambda fa: twins.overload_twins(fa, ('cpc/',)), 1, "const& and && overloads of one operation have identical bodies modulo std::move/forward"),
-        ("structural triggers", lambda fa: triggers.obligations(fa, ['cpc_sketch_alloc', 'cpc_union_alloc', 'u32_table', 'cpc_compressor']), 10, "the comparisons that decide when to resize / rebuild / compact / purge / promote keep their reviewed boundary (operator and constants)"),
+        ("structural triggers", lambda fa: triggers.obligations(fa, ['cpc_sketch_alloc', 'cpc_union_alloc', 'u32_table', 'cpc_compressor']), 18, "the comparisons that decide when to resize / rebuild / compact / purge / promote keep their reviewed boundary (operator and constants)"),
     ):
         o = f(facts)
         obs += o
